@@ -82,6 +82,22 @@ fn gen_history(rng: &mut Rng, id_base: u32, conflicting_with: Option<&Stream>) -
     // when building the conflicting "other" stream, reuse the main stream's ids with different widths
     let mut reuse: Vec<u32> = conflicting_with.map(|m| m.insts.iter().filter_map(|i| i.rid).collect()).unwrap_or_default();
     let bystanders = g.rng.chance(1, 2);
+    // ids that are defined but carry no int/float type (other types, labels, imports, ...): "unknown" to the rule
+    let mut other_ids: Vec<u32> = vec![];
+    // an id nothing defines that differs from a typed id in exactly one bit (aliases it under truncation / tagging)
+    fn near_miss(g: &mut Gen, typed: &[u32]) -> Option<u32> {
+        if typed.is_empty() {
+            return None;
+        }
+        let x = *g.rng.pick(typed);
+        let k = *g.rng.pick(&[31u32, 31, 30, 24, 16, 16, 15, 8, 7]);
+        let cand = x ^ (1 << k);
+        if g.ids.contains(&cand) || cand >= 0x3fff_ff00 && cand <= 0x4000_00ff {
+            None
+        } else {
+            Some(cand)
+        }
+    }
     for _ in 0..n {
         if bystanders && g.rng.chance(1, 5) {
             // an instruction of another kind in between (any opcode of the grammar, biased to mode-setting ones)
@@ -90,6 +106,8 @@ fn gen_history(rng: &mut Rng, id_base: u32, conflicting_with: Option<&Stream>) -
             if let Some(rid) = i.rid {
                 if i.rtype.is_some() {
                     value_ids.push(rid);
+                } else if !i.is("TypeInt") && !i.is("TypeFloat") {
+                    other_ids.push(rid);
                 }
             }
             insts.push(i);
@@ -163,7 +181,10 @@ fn gen_history(rng: &mut Rng, id_base: u32, conflicting_with: Option<&Stream>) -
             }
             5..=7 => {
                 // OpConstant / OpSpecConstant on a declared, undeclared or forward-declared type
-                let rt = match g.rng.below(8) {
+                let typed_now: Vec<u32> = type_ids.iter().chain(value_ids.iter()).cloned().collect();
+                let rt = match g.rng.below(10) {
+                    8 if !other_ids.is_empty() => *g.rng.pick(&other_ids),
+                    9 => near_miss(&mut g, &typed_now).unwrap_or(g.next_id + 61),
                     0 => g.next_id + 60 + g.rng.below(5) as u32,
                     1 => {
                         // forward-declared: the declaration comes later in the stream
@@ -192,7 +213,16 @@ fn gen_history(rng: &mut Rng, id_base: u32, conflicting_with: Option<&Stream>) -
             }
             _ => {
                 // OpSwitch: selector typed through a chain of definitions
-                let sel = if !value_ids.is_empty() && g.rng.chance(5, 6) { *g.rng.pick(&value_ids) } else { g.next_id + 80 };
+                let typed_now: Vec<u32> = type_ids.iter().chain(value_ids.iter()).cloned().collect();
+                let sel = if !value_ids.is_empty() && g.rng.chance(4, 6) {
+                    *g.rng.pick(&value_ids)
+                } else {
+                    match g.rng.below(3) {
+                        0 if !other_ids.is_empty() => *g.rng.pick(&other_ids),
+                        1 => near_miss(&mut g, &typed_now).unwrap_or(g.next_id + 81),
+                        _ => g.next_id + 80,
+                    }
+                };
                 let mut ops = vec![MOp::W(s.k_idref, sel), MOp::W(s.k_idref, g.some_id())];
                 for _ in 0..g.rng.below(5) {
                     match g.tctx.width_of(sel) {
@@ -339,6 +369,17 @@ impl Property for C10 {
             crate::producer::plant_dense_ids(rng, &mut tmp);
             main.header.bound = tmp.header.bound;
             main.insts.extend(tmp.insts);
+        }
+        // the id bound is a header word the rule must not look at: usually plausible, sometimes 0, 1, smaller than ids in use
+        if rng.chance(1, 2) {
+            let rids: Vec<u32> = main.insts.iter().filter_map(|i| i.rid).collect();
+            main.header.bound = match rng.below(5) {
+                0 => 0,
+                1 => 1,
+                2 => (main.header.bound / 2).max(2),
+                3 if !rids.is_empty() => *rng.pick(&rids),
+                _ => 0xFFFF_FFFF,
+            };
         }
         let other = gen_history(rng, 1, Some(&main));
         let faults = if rng.chance(1, 4) {
